@@ -1,6 +1,7 @@
 package props
 
 import (
+	"bytes"
 	"fmt"
 	"hash/fnv"
 	"sync"
@@ -71,6 +72,9 @@ type c08Scenario struct {
 	mux      bool // handlers registered by short name on a shared ServeMux, several commands
 }
 
+// c08Body: body size of message s on connection i (below, at and above the 1 KiB pooled read buffer)
+func c08Body(i, s int) int { return []int{0, 12, 100, 1024, 1028, 4096}[(i+s)%6] }
+
 // the commands of the generated dictionary used by C08: (code, application)
 var c08Cmds = [][2]uint32{{8388000, 0}, {257, 0}, {8388002, 8388001}}
 
@@ -97,6 +101,14 @@ func runC08(c *ev.Case, ctx *lib.Ctx, sc c08Scenario) {
 		seq := m.Header.HopByHopID
 		order.add(i)
 		mons[i].enter(seq)
+		// the message must be the one that was sent on this connection (no bytes of another connection)
+		if b, err := m.Serialize(); err != nil || !bytes.Equal(b, c08Msg(i, seq, c08Body(i, int(seq)), sc.mux)) {
+			mons[i].mu.Lock()
+			if mons[i].problem == "" {
+				mons[i].problem = fmt.Sprintf("message %d was delivered with other bytes than were sent on this connection (err=%v)", seq, err)
+			}
+			mons[i].mu.Unlock()
+		}
 		switch sc.handler {
 		case 1:
 			time.Sleep(time.Duration(1+seq%3) * time.Millisecond)
@@ -142,7 +154,7 @@ func runC08(c *ev.Case, ctx *lib.Ctx, sc c08Scenario) {
 	streams := make([][]byte, sc.K)
 	for i := range conns {
 		for s := 1; s <= sc.perConn[i]; s++ {
-			streams[i] = append(streams[i], c08Msg(i, uint32(s), []int{0, 12, 100, 1024}[(i+s)%4], sc.mux)...)
+			streams[i] = append(streams[i], c08Msg(i, uint32(s), c08Body(i, s), sc.mux)...)
 		}
 	}
 	switch sc.pattern {
